@@ -337,7 +337,8 @@ def bsf_to_pauli(bsf):
         def _to_pauli(b):  # type:ignore
             n = bsf.shape[1] // 2
             pauli_string = ['I' for _ in range(n)]
-            for i in b.indices:
+            # X columns first: indices are not always stored in order
+            for i in np.sort(b.indices):
                 if i < n:
                     pauli_string[i] = 'X'
                 elif i >= n:
